@@ -1,5 +1,5 @@
 (* Properties_C11.v — C11: relocation entries round-trip in both formats, classes and byte orders. *)
-From ElfioV Require Import Bytes Mem Stream SectionData SectionData_proofs Strings Elfio Table Accessors Reloc_proofs Arrange_proofs.
+From ElfioV Require Import Bytes Mem Stream SectionData SectionData_proofs Strings Elfio Table Accessors Reloc_proofs Arrange_proofs Reloc_swap.
 Local Open Scope N_scope.
 
 (* ABI packing of symbol and type: 24+8 bits (ELF32), 32+32 bits (ELF64) *)
@@ -59,6 +59,48 @@ Theorem C11_swap_twice_restores :
   forall a b x, Arrange_proofs.swap1 a b (Arrange_proofs.swap1 a b x) = x.
 Proof. exact swap1_involutive. Qed.
 Print Assumptions C11_swap_twice_restores.
+
+(* swap_symbols( a, b ) on a section holding a table of entries (either format, class, byte order; the
+   data resident): the call succeeds, the section afterwards holds the table in which every entry's
+   symbol index x is replaced by (a if x = b, b if x = a, x otherwise) and every other field of every
+   entry is as before; type, entry size, size are unchanged and so is every other part of the object
+   (the result is the object with that one section replaced) *)
+Theorem C11_swap_symbols_exchanges_every_entry :
+  forall (junk : N -> N) el relsec s c e is_rela (es : list rel_entry) a b,
+    get_sec el relsec = Some s ->
+    acls el = c -> el_enc el = e ->
+    Inv s -> s_cls s = c -> contents s = concat (map (rel_enc c e is_rela) es) ->
+    sh_type s = (if is_rela then SHT_RELA else SHT_REL) -> sh_entsize s = rel_esz c is_rela ->
+    sh_size s < size_bound c -> lenN es < 2 ^ 32 ->
+    Forall (rel_fits c) es -> sym_fits c a -> sym_fits c b ->
+    exists s',
+      swap_symbols junk el relsec a b = Ok (upd_sec el relsec s') /\
+      Inv s' /\ contents s' = concat (map (rel_enc c e is_rela) (map (swap_entry a b) es)) /\
+      sh_type s' = sh_type s /\ sh_entsize s' = sh_entsize s /\ sh_size s' = sh_size s /\ s_cls s' = s_cls s.
+Proof. exact swap_symbols_spec. Qed.
+Print Assumptions C11_swap_symbols_exchanges_every_entry.
+
+(* ... and doing it twice gives back the original table *)
+Theorem C11_swap_symbols_twice_restores_table :
+  forall a b (es : list rel_entry), map (swap_entry a b) (map (swap_entry a b) es) = es.
+Proof. exact swap_entries_twice. Qed.
+Print Assumptions C11_swap_symbols_twice_restores_table.
+
+Example C11_swap_example :
+  let mk := mkRelEntry in
+  let es := [mk 16 5 1 0; mk 32 9 2 7; mk 48 3 1 0] in
+  let s := with_entsize (with_type (set_data true (new_section C64) (concat (map (rel_enc C64 LSB true) es))) SHT_RELA) 24 in
+  let el := with_secs (empty_elfio false) [s] in
+  acls el = C64 /\ el_enc el = LSB /\ Forall (rel_fits C64) es /\
+  match swap_symbols (fun _ => 0) el 0 5 9 with
+  | Ok el' => option_map contents (get_sec el' 0) =
+              Some (concat (map (rel_enc C64 LSB true) [mk 16 9 1 0; mk 32 5 2 7; mk 48 3 1 0]))
+  | Fault _ => False
+  end.
+Proof.
+  cbv zeta. split; [reflexivity|]. split; [reflexivity|]. split; [|vm_compute; reflexivity].
+  repeat constructor; cbn; lia.
+Qed.
 
 Theorem C11_out_of_range_refused :
   forall c e is_rela s (es : list rel_entry) j p,
